@@ -50,15 +50,23 @@ for line in sys.stdin:
                     if mode == "list":
                         getattr(w, wn)(list(v))
                     elif mode == "single":
+                        n = 0
                         for x in v:
                             getattr(w, wn)([x])
+                            n += 1
+                        if n == 0:
+                            getattr(w, wn)([])   # a stream step needs at least one write call
                     elif mode == "chunks":
                         it = iter(v)
+                        n = 0
                         while True:
                             ch = list(itertools.islice(it, c.get("k", 2)))
                             if not ch:
                                 break
                             getattr(w, wn)(ch)
+                            n += 1
+                        if n == 0:
+                            getattr(w, wn)([])
                     elif mode == "iter":
                         getattr(w, wn)(x for x in v)
                 else:
